@@ -516,7 +516,7 @@ def _wiring(chk):
                     log.append(k)
                     object.__setattr__(self_, k, v)
             dyn = Dyn()
-            dom = _Obj(dynamics=dyn)
+            dom = _Obj(dynamics=dyn, initial_state="X0", period=None)
             result = _Obj(x_corrected=xarr(xs), half_period=X(th), iterations=2, residual_norm=X(sp.Integer(0)))
             self = _Obj(domain_obj=dom, corrector=_Obj(correct=lambda d, options=None: result),
                         make_key=lambda *a: a, get_or_create=lambda k, f: f(),
